@@ -263,3 +263,36 @@ func (o *verifOnce) Do(f func()) {
 	defer func() { o.done = true; o.running = false }()
 	f()
 }
+
+// verifPool stands in for sync.Pool: a last-in-first-out free list that never drops anything. sync.Pool may hand back
+// any object that was Put, or a new one; always handing back the most recent one is the legal behaviour under which
+// a use-after-Put shows every time, and it is the same in every run (sync.Pool's per-P caches are not).
+type verifPool struct {
+	New   func() any
+	mu    sync.Mutex
+	items []any
+}
+
+func (p *verifPool) Get() any {
+	p.mu.Lock()
+	if n := len(p.items); n > 0 {
+		x := p.items[n-1]
+		p.items = p.items[:n-1]
+		p.mu.Unlock()
+		return x
+	}
+	p.mu.Unlock()
+	if p.New != nil {
+		return p.New()
+	}
+	return nil
+}
+
+func (p *verifPool) Put(x any) {
+	if x == nil {
+		return
+	}
+	p.mu.Lock()
+	p.items = append(p.items, x)
+	p.mu.Unlock()
+}
